@@ -35,6 +35,14 @@ class C07Learner:
     def learn(self, context, action, reward, probability, **kwargs):
         pass
 
+# An aborted run (props/c07.py, sub-check 'aborted'): the ABORT["at"]-th evaluate() call of the run raises KeyboardInterrupt after
+# yielding ABORT["rows"] rows (Experiment.run handles Ctrl-C by logging it and returning what was recorded). "done" lists the
+# (environment, learner, evaluator) index triples whose evaluation ran to its end before that, "hit" the aborted one.
+ABORT = {"at": None, "rows": 0, "n": 0, "done": [], "hit": None}
+
+def arm_abort(at=None, rows=0):
+    ABORT.update(at=at, rows=rows, n=0, done=[], hit=None)
+
 class C07Evaluator:
     """evaluate() yields the rows generated for the (environment, learner) pair it is given."""
 
@@ -53,7 +61,14 @@ class C07Evaluator:
         n = sum(1 for _ in environment.read())   # touch the environment like a real evaluator would
         assert n == 2
         self.calls.append((environment.idx, learner.idx))
-        for row in self._rows[(environment.idx, learner.idx)]:
+        k = ABORT["n"]; ABORT["n"] += 1
+        mine = ABORT["at"] is not None and ABORT["at"] == k
+        for j, row in enumerate(self._rows[(environment.idx, learner.idx)]):
+            if mine and j >= ABORT["rows"]: break
             row = deepcopy(row)
             if self._stamp is not None: row["run"] = self._stamp
             yield row
+        if mine:
+            ABORT["hit"] = (environment.idx, learner.idx, self.idx)
+            raise KeyboardInterrupt()
+        ABORT["done"].append((environment.idx, learner.idx, self.idx))
